@@ -334,7 +334,7 @@ fn type_expect(lang: &str, cfg: usize, te: &TE, prim: &dyn Fn(&str) -> String) -
     })
 }
 fn strip(t: &TE) -> &TE { match t { TE::Smart(_, x) | TE::Ref(x) | TE::Qual(_, x) => strip(x), o => o } }
-fn type_leaves() -> Vec<TE> { let mut v: Vec<TE> = TE_PRIMS.iter().map(|p| TE::Prim(p)).collect(); v.push(TE::User("Other")); v.push(TE::Param); v }
+fn type_leaves() -> Vec<TE> { let mut v: Vec<TE> = TE_PRIMS.iter().map(|p| TE::Prim(p)).collect(); v.push(TE::User("Other")); v.push(TE::Param); v.push(TE::User("Type")); v }
 fn type_unary(t: &TE) -> Vec<TE> {
     let b = || Box::new(t.clone());
     let mut v = vec![TE::Vec(b()), TE::Arr(b(), 3), TE::Slice(b()), TE::Opt(b()), TE::Ref(b()), TE::Gen("Wrap", vec![t.clone()])];
@@ -357,6 +357,11 @@ fn type_corpus(thorough: bool) -> Vec<TE> {
     all.extend(l2.clone());
     // path qualification and deep chains
     all.push(TE::Qual("std::vec", Box::new(TE::Vec(Box::new(TE::Prim("u8"))))));
+    // path-qualified scalars (typeshare::I54 is how the crate's own integer types are usually written)
+    for (q, p) in [("typeshare", "I54"), ("typeshare", "U53"), ("std::primitive", "bool"), ("std::primitive", "u32"), ("core::primitive", "f64"), ("std::primitive", "char")] {
+        let t = TE::Qual(q, Box::new(TE::Prim(p)));
+        all.push(TE::Vec(Box::new(t.clone()))); all.push(TE::Map(Box::new(TE::Prim("String")), Box::new(t.clone()))); all.push(TE::Gen("Wrap", vec![t.clone()])); all.push(t);
+    }
     all.push(TE::Qual("std::collections", Box::new(TE::Map(Box::new(TE::Prim("String")), Box::new(TE::Qual("crate::model", Box::new(TE::User("Other"))))))));
     all.push(TE::Qual("other_crate", Box::new(TE::Gen("Wrap", vec![TE::Qual("std::string", Box::new(TE::Prim("String")))]))));
     for (i, t) in l2.iter().enumerate() { if i % (if thorough { 5 } else { 37 }) == 0 { let d3 = TE::Vec(Box::new(TE::Opt(Box::new(t.clone())))); all.push(TE::Map(Box::new(TE::Prim("String")), Box::new(TE::Smart("Arc", Box::new(d3.clone()))))); all.push(d3); } }
@@ -408,6 +413,47 @@ fn type_case(te: &TE, irs: &[typeshare_core::rust_types::RustType]) -> Option<St
             (_, Err(())) => {}
         }
     } }
+    None
+}
+
+/// type expressions the back ends spell on their own path (not through format_type): the helper type of a struct variant is declared with
+/// a generic-parameter list and referred to with one - both must list the same parameters in the same order (generic arguments preserved, in order)
+const HELPER_PROGRAMS: [&str; 2] = [
+    "#[typeshare]\n#[serde(tag = \"t\", content = \"c\")]\npub enum Message<Req, Resp> { Exchange { response: Option<Resp>, pending: Vec<Req> }, One { only: Resp }, Plain(Req) }\n",
+    "#[typeshare]\n#[serde(tag = \"t\", content = \"c\")]\npub enum Tri<A, B, C> { V { z: HashMap<String, C>, y: Vec<Option<A>>, x: B }, W { only: B, again: Vec<B> } }\n",
+];
+fn helper_lists(out: &str) -> Vec<(String, Vec<String>)> {
+    let b = out.as_bytes();
+    let mut v = vec![];
+    let mut from = 0;
+    while let Some(i) = out[from..].find("Inner") {
+        let end = from + i + 5;
+        let mut st = from + i; while st > 0 && (b[st - 1].is_ascii_alphanumeric() || b[st - 1] == b'_') { st -= 1; }
+        from = end;
+        if end >= b.len() || !(b[end] == b'<' || b[end] == b'[') { continue; }
+        let close = if b[end] == b'<' { b'>' } else { b']' };
+        let mut depth = 0; let mut j = end; let mut stop = None;
+        while j < b.len() { if b[j] == b[end] { depth += 1; } else if b[j] == close { depth -= 1; if depth == 0 { stop = Some(j); break; } } j += 1; }
+        if let Some(e) = stop { v.push((out[st..end].to_string(), out[end + 1..e].split(',').map(|p| p.split(':').next().unwrap().trim().to_string()).collect())); }
+    }
+    v
+}
+fn helper_case(k: usize) -> Option<String> {
+    use std::collections::HashMap;
+    use typeshare_core::language::{Kotlin, Language, Scala, Swift};
+    for lang in ["kotlin", "swift", "scala"] {
+        let d = match parse_named(HELPER_PROGRAMS[k], "f.rs") { Some(d) => d, None => return Some("no parsed data".into()) };
+        let mut out: Vec<u8> = Vec::new();
+        let r = match lang { "kotlin" => Kotlin { package: "p".into(), no_version_header: true, ..Default::default() }.generate_types(&mut out, &HashMap::new(), d),
+            "swift" => Swift { no_version_header: true, ..Default::default() }.generate_types(&mut out, &HashMap::new(), d),
+            _ => Scala { package: "p".into(), no_version_header: true, ..Default::default() }.generate_types(&mut out, &HashMap::new(), d) };
+        if let Err(e) = r { return Some(format!("{}: generation failed: {}", lang, e)); }
+        let out = String::from_utf8(out).unwrap();
+        let lists = helper_lists(&out);
+        if lists.is_empty() { return Some(format!("{}: no helper type with generic parameters found in the output", lang)); }
+        for (name, l) in &lists { if let Some((_, first)) = lists.iter().find(|(n, _)| n == name) { if first != l {
+            return Some(format!("{}: helper type {} is declared with generic parameters <{}> but referred to with <{}> (generic arguments must be preserved in order)", lang, name, first.join(", "), l.join(", "))); } } }
+    }
     None
 }
 
@@ -850,11 +896,13 @@ fn main() {
             if a[1] == "type-check" {
                 let i: usize = a[2].parse().unwrap();
                 let th = a.get(3).map_or(false, |x| x == "true");
+                if i >= 1_000_000 { if let Some(m) = helper_case(i - 1_000_000) { report(i, th, m); } println!("input passes"); std::process::exit(0); }
                 let corpus = type_corpus(th);
                 let te = corpus[i].clone();
                 match type_parse_batch(&[te.clone()]) { Err(e) => report(i, th, format!("`{}`: {}", te.src(), e)), Ok(irs) => if let Some(m) = type_case(&te, &irs[0]) { report(i, th, m); } }
                 println!("input passes"); std::process::exit(0);
             }
+            for k in 0..HELPER_PROGRAMS.len() { if let Some(m) = helper_case(k) { report(1_000_000 + k, thorough, m); } }
             let corpus = type_corpus(thorough);
             let mut n = 0;
             for (b, batch) in corpus.chunks(100).enumerate() {
@@ -863,7 +911,7 @@ fn main() {
                     Ok(irs) => for (j, te) in batch.iter().enumerate() { n += 1; if let Some(m) = type_case(te, &irs[j]) { report(b * 100 + j, thorough, m); } }
                 }
             }
-            println!("no failing input among {} type expressions (depth <= 3 over 17 leaves and 14 constructors, plus qualified paths and depth 4-5 chains) x 4 positions x 6 languages x plain / prefix / type_mappings", n);
+            println!("no failing input among {} type expressions (depth <= 3 over 18 leaves and 14 constructors, plus qualified paths / scalars and depth 4-5 chains) x 4 positions x 6 languages x plain / prefix / type_mappings; + 2 programs whose struct-variant helper types must be declared and referred to with the same generic parameters (Kotlin, Swift, Scala)", n);
             std::process::exit(0);
         }
         Some("wire-search") | Some("wire-check") => {
